@@ -1,4 +1,5 @@
 import BppModel.OptimOneDim
+import BppModel.OptimMulti
 import BppModel.Generated.OptimConstants
 /-
 Model of the optimisation framework (C10), part 4: searching along a direction, and the optimisers
@@ -12,7 +13,7 @@ built on it, transcribed in full
 
 (the code after the `fix:` commits of findings/C10.json: a `DirectionFunction` counts the evaluations
 made through it, `lineMinimization` / `lineSearch` return that count, Powell counts its own
-evaluations).
+evaluations; BFGS goes back to the point a step started from when the function has increased).
 
 A `DirectionFunction` is a function object wrapped around another one (the optimiser's function:
 the same C++ object, held through a `shared_ptr`): its state contains the state of that function,
@@ -498,7 +499,9 @@ def bfgsHessian (fac fad fae : α) (xi hdg dg : List α) (hess : List (List α))
     ((hess.getD i []).getD j zero) + (fac * g xi i * g xi j - fad * g hdg i * g hdg j + fae * g dg i * g dg j)
   (List.range n).map (fun i => (List.range n).map (fun j => if j ≥ i then upper i j else upper j i))
 
-/-- `BfgsMultiDimensions::doStep` (BfgsMultiDimensions.cpp:96-211) -/
+/-- `BfgsMultiDimensions::doStep` (BfgsMultiDimensions.cpp:96-218), repaired: when the function has
+increased the optimiser goes back to the point the step started from (`getParameters_()[i].setValue(p_[i])`
+for all `i`, then an evaluation there) -/
 def bfgsDoStep (I : FunI F α) (fuel : Nat) (s : St F (Bfgs α) α) : Except (Exc × F) (St F (Bfgs α) α × α) :=
   let p := values s.core.params
   let g0 := { s.ext with p := p }
@@ -513,8 +516,15 @@ def bfgsDoStep (I : FunI F α) (fuel : Nat) (s : St F (Bfgs α) α) : Except (Ex
     | .error e => .error e
     | .ok (fn, f) =>
       let s := { s with fn := fn }
-      -- "!!! Function increase !!!"
-      if gtb f s.core.cur then .ok ({ s with core := { s.core with tol := true } }, f)
+      if gtb f s.core.cur then
+        -- "!!! Function increase !!!" (repaired): back to the point the step started from
+        match setAll s.core.params p with
+        | .error e => .error (e, s.fn)
+        | .ok pl0 =>
+          match I.f s.fn pl0 with
+          | .error e => .error e
+          | .ok (fn, f0) =>
+            .ok ({ s with fn := fn, core := { s.core with params := pl0, nbEval := s.core.nbEval + 1, tol := true } }, f0)
       else if s.core.tol then .ok (s, f)
       else
         match gradientOf I s.fn s.core.params s.ext.gradient.length with
